@@ -2,6 +2,8 @@
 from framework import Func
 from bip_utils import Base58Encoder, Base58Decoder, Base58Alphabets
 from bip_utils import Base58XmrEncoder, Base58XmrDecoder
+from bip_utils.utils.misc import BytesUtils, IntegerUtils
+from modeldrv import Z
 
 ALPHS = [Base58Alphabets.BITCOIN, Base58Alphabets.RIPPLE]
 
@@ -211,6 +213,216 @@ def gen_xmr(ctx):
         ctx.run("xmr_decode", ["".join(t)], "mutated")
 
 
+# ------------------------------------------------------------------ IntegerUtils / BytesUtils
+ENDS = ["little", "big"]
+
+
+def d_int_to_bytes(a):
+    v, w, big = a
+    try:
+        b = IntegerUtils.ToBytes(v, w or None, ENDS[big])
+    except OverflowError:
+        fits = v >= 0 and (w == 0 or v < 256 ** w)
+        return "ToBytes(%d, %d) raised OverflowError although the value fits" % (v, w) if fits else None
+    if v < 0 or (w and v >= 256 ** w):
+        return "ToBytes(%d, %d) returned %s for a value that does not fit" % (v, w, b.hex())
+    want = w or max(1, (v.bit_length() + 7) // 8)
+    if len(b) != want:
+        return "ToBytes(%d, %d) has %d bytes, expected %d" % (v, w, len(b), want)
+    # value from the positional definition, not from int.from_bytes
+    digs = b if big else b[::-1]
+    val = 0
+    for x in digs:
+        val = val * 256 + x
+    if val != v or BytesUtils.ToInteger(b, ENDS[big]) != v:
+        return "ToInteger(ToBytes(%d)) = %d" % (v, BytesUtils.ToInteger(b, ENDS[big]))
+    return None
+
+
+def d_bytes_to_int(a):
+    b, big = a
+    v = BytesUtils.ToInteger(b, ENDS[big])
+    if len(b) == 0:
+        return None if v == 0 else "ToInteger(b'') = %d" % v
+    r = IntegerUtils.ToBytes(v, len(b), ENDS[big])
+    return None if r == b else "ToBytes(ToInteger(b), len(b)) = %s != b" % r.hex()
+
+
+def d_bytes_number(a):
+    v, = a
+    k = IntegerUtils.GetBytesNumber(v)
+    if v <= 0:
+        return None if k == 1 else "GetBytesNumber(%d) = %d" % (v, k)
+    ok = k >= 1 and v < 256 ** k and (k == 1 or v >= 256 ** (k - 1))
+    return None if ok else "GetBytesNumber(%d) = %d is not the minimal width" % (v, k)
+
+
+def d_int_binstr(a):
+    n, pad = a
+    s = IntegerUtils.ToBinaryStr(n, pad)
+    want = "".join("1" if (n >> i) & 1 else "0" for i in range(max(n.bit_length(), 1) - 1, -1, -1))
+    want = "0" * (pad - len(want)) + want
+    if s != want:
+        return "ToBinaryStr(%d, %d) = %r, expected %r" % (n, pad, s, want)
+    r = IntegerUtils.FromBinaryStr(s)
+    return None if r == n else "FromBinaryStr(ToBinaryStr(%d, %d)) = %d" % (n, pad, r)
+
+
+def d_bytes_binstr(a):
+    b, pad = a
+    s = BytesUtils.ToBinaryStr(b, pad)
+    if len(b) == 0:
+        return None
+    r = BytesUtils.FromBinaryStr(s, 2 * len(b))
+    return None if r == b else "FromBinaryStr(ToBinaryStr(b, %d), %d) = %s != b" % (pad, 2 * len(b), r.hex())
+
+
+def d_hex(a):
+    b, = a
+    s = BytesUtils.ToHexString(b)
+    want = "".join("0123456789abcdef"[x >> 4] + "0123456789abcdef"[x & 15] for x in b)
+    if s != want:
+        return "ToHexString(%s) = %r" % (b.hex(), s)
+    for t in (s, s.upper()):
+        r = BytesUtils.FromHexString(t)
+        if r != b:
+            return "FromHexString(%r) = %s != b" % (t, r.hex())
+    return None
+
+
+def d_unhex(a):
+    s, = a
+    try:
+        b = BytesUtils.FromHexString(s)
+    except ValueError:
+        return None
+    e = BytesUtils.ToHexString(b)
+    return None if e == s.lower() else "accepted hex %r re-encodes to %r" % (s, e)
+
+
+FUNCS.update({
+    "int_to_bytes": Func(model=lambda m, a: m.call("int_to_bytes", Z(a[0]), a[1], a[2]),
+                         impl=lambda a: IntegerUtils.ToBytes(a[0], a[1] or None, ENDS[a[2]]), direct=d_int_to_bytes),
+    "bytes_to_int": Func(model=lambda m, a: m.call("bytes_to_int", a[0], a[1]),
+                         impl=lambda a: BytesUtils.ToInteger(a[0], ENDS[a[1]]), direct=d_bytes_to_int),
+    "bytes_number": Func(model=lambda m, a: m.call("bytes_number", Z(a[0])),
+                         impl=lambda a: IntegerUtils.GetBytesNumber(a[0]), direct=d_bytes_number),
+    "int_to_binstr": Func(model=lambda m, a: m.call("int_to_binstr", a[0], a[1]),
+                          impl=lambda a: IntegerUtils.ToBinaryStr(a[0], a[1]), direct=d_int_binstr),
+    "int_from_binstr": Func(model=lambda m, a: m.call("int_from_binstr", a[0]),
+                            impl=lambda a: IntegerUtils.FromBinaryStr(a[0])),
+    "bytes_to_binstr": Func(model=lambda m, a: m.call("bytes_to_binstr", a[0], a[1]),
+                            impl=lambda a: BytesUtils.ToBinaryStr(a[0], a[1]), direct=d_bytes_binstr),
+    "bytes_from_binstr": Func(model=lambda m, a: m.call("bytes_from_binstr", a[0], a[1]),
+                              impl=lambda a: BytesUtils.FromBinaryStr(a[0], a[1])),
+    "hex_encode": Func(model=lambda m, a: m.call("hex_encode", a[0]),
+                       impl=lambda a: BytesUtils.ToHexString(a[0]), direct=d_hex),
+    "hex_decode": Func(model=lambda m, a: m.call("hex_decode", a[0]),
+                       impl=lambda a: BytesUtils.FromHexString(a[0]), direct=d_unhex),
+})
+
+
+def boundary_ints():
+    out = {0, 1, 2, 127, 128, 255, 256, 257}
+    for k in (1, 2, 3, 4, 7, 8, 9, 16, 20, 31, 32, 33, 64, 65):
+        for d in (-1, 0, 1):
+            out.add(256 ** k + d)
+    for k in (6, 7, 8, 14, 15, 16, 30, 63, 64, 127, 128, 255, 256, 536):
+        for d in (-1, 0, 1):
+            out.add(2 ** k + d)
+    return sorted(out)
+
+
+def gen_intbytes(ctx):
+    rng = ctx.rng
+    ints = boundary_ints()
+    for v in ints:
+        ctx.run("bytes_number", [v], "boundary", trivial=(v == 0))
+        for big in (0, 1):
+            ctx.run("int_to_bytes", [v, 0, big], "auto")
+            k = max(1, (v.bit_length() + 7) // 8)
+            for w in {1, 2, k - 1, k, k + 1, k + 3} - {0}:
+                ctx.run("int_to_bytes", [v, w, big], "fixed")
+        for pad in (0, 1, 8, v.bit_length(), v.bit_length() + 1, 11, 32):
+            ctx.run("int_to_binstr", [v, pad], "boundary")
+    for v in (-1, -2, -255, -256, -2 ** 64):
+        ctx.run("bytes_number", [v], "negative")
+        for w in (0, 1, 9):
+            ctx.run("int_to_bytes", [v, w, 1], "negative")
+    for v in range(0, 1025):
+        ctx.run("bytes_number", [v], "small")
+        ctx.run("int_to_bytes", [v, 0, v & 1], "small")
+        ctx.run("int_to_binstr", [v, v % 13], "small")
+    # all byte strings of length 0..2 through every bytes-side helper
+    two = range(65536) if not ctx.quick else list(range(0, 300)) + [rng.randrange(65536) for _ in range(300)]
+    small = [b""] + [bytes([x]) for x in range(256)] + [x.to_bytes(2, "big") for x in two]
+    for b in small:
+        triv = (b == b"")
+        for big in (0, 1):
+            ctx.run("bytes_to_int", [b, big], "len0-2", trivial=triv)
+        ctx.run("hex_encode", [b], "len0-2", trivial=triv)
+        ctx.run("bytes_to_binstr", [b, 8 * len(b)], "len0-2", trivial=triv)
+        ctx.run("bytes_to_binstr", [b, 0], "len0-2", trivial=triv)
+        s = BytesUtils.ToBinaryStr(b, 8 * len(b))
+        ctx.run("bytes_from_binstr", [s, 2 * len(b)], "len0-2", trivial=triv)
+        ctx.run("bytes_from_binstr", [s, 0], "len0-2-nopad", trivial=triv)
+        ctx.run("int_from_binstr", [s], "len0-2", trivial=triv)
+    # all hex strings of length <= 2 over an extended character set, then every single char
+    hx = "0123456789abcdefABCDEFgG xX-_\x00é"
+    ctx.run("hex_decode", [""], "len0", trivial=True)
+    for c in hx:
+        ctx.run("hex_decode", [c], "len1")
+        for d in hx:
+            ctx.run("hex_decode", [c + d], "len2")
+    for c in range(0, 256):
+        ctx.run("hex_decode", [chr(c) + "0"], "allchars")
+        ctx.run("int_from_binstr", [chr(c)], "allchars")
+        ctx.run("int_from_binstr", ["1" + chr(c) + "1"], "allchars")
+        ctx.run("int_from_binstr", [chr(c) + "1"], "allchars")
+    ctx.note_exhaustive("IntegerUtils/BytesUtils: all byte strings of length 0..1 (2 in thorough) through ToInteger, "
+                        "ToHexString, ToBinaryStr/FromBinaryStr; all integers 0..1024; all single characters 0..255 "
+                        "in FromHexString / FromBinaryStr positions")
+    # int() grammar of FromBinaryStr: directed
+    for s in ["", " ", "0", "1", "01", "0b1", "0B1", "0b", "0b_1", "0b__1", "_1", "1_", "1_0", "1__0", "+1", "-1",
+              "+-1", "- 1", " 1 ", "\t1\n", "\x0b1\x0c", "1 1", "2", "0b2", "0x1", "0o1", "1\x00", " 1", "١",
+              "１", "-0", "-0b101", "+0B1_0", "0_b1", "00b1", "1" * 70, "0" * 70 + "1", "1_" * 20 + "1", "--1",
+              " +1_0_1 ", "0b 1", "0b-1", "b1", "\ud800"]:
+        ctx.run("int_from_binstr", [s], "grammar")
+        ctx.run("bytes_from_binstr", [s, 0], "grammar")
+        ctx.run("bytes_from_binstr", [s, 4], "grammar")
+    for _ in range(ctx.n(300, 5000)):
+        b = rand_bytes(rng, 80)
+        big = rng.randrange(2)
+        ctx.run("bytes_to_int", [b, big], "rand")
+        ctx.run("hex_encode", [b], "rand")
+        h = BytesUtils.ToHexString(b)
+        t = list(h.upper() if rng.randrange(3) == 0 else h)
+        k = rng.randrange(4)
+        if t and k == 0:
+            t[rng.randrange(len(t))] = rng.choice("gG xzé\U0001F600:")
+        elif k == 1:
+            t.insert(rng.randrange(len(t) + 1), rng.choice("0aF"))
+        elif t and k == 2:
+            del t[rng.randrange(len(t))]
+        ctx.run("hex_decode", ["".join(t)], "mutated")
+        pad = rng.choice([0, 8 * len(b), 8 * len(b) + 3, rng.randrange(64)])
+        ctx.run("bytes_to_binstr", [b, pad], "rand")
+        s = BytesUtils.ToBinaryStr(b, pad)
+        ctx.run("bytes_from_binstr", [s, rng.choice([0, 2 * len(b), 2 * len(b) + 1, 2 * len(b) + 2])], "rand")
+        v = rng.getrandbits(rng.choice([1, 7, 8, 9, 16, 31, 32, 33, 64, 65, 128, 256, 521]))
+        w = rng.choice([0, 0, 1, 2, 4, 8, 16, 32, 33, (v.bit_length() + 7) // 8, (v.bit_length() + 7) // 8 + 1])
+        ctx.run("int_to_bytes", [v, w, big], "rand")
+        ctx.run("bytes_number", [v], "rand")
+        ctx.run("int_to_binstr", [v, rng.randrange(300)], "rand")
+        bs = list(IntegerUtils.ToBinaryStr(v, rng.randrange(40)))
+        k = rng.randrange(5)
+        if k == 0:
+            bs.insert(rng.randrange(len(bs) + 1), rng.choice("_ 2b+-\t"))
+        elif k == 1:
+            bs = list(rng.choice([" ", "", "+", "-", "0b", "0B", " -0b_"])) + bs + list(rng.choice(["", " ", "\n", "_"]))
+        ctx.run("int_from_binstr", ["".join(bs)], "mutated")
+
+
 def rand_bytes(rng, maxlen=200):
     k = rng.choice([0, 0, 1, 2, 3])
     n = rng.choice([0, 1, 2, 3, 4, 5, 8, 16, 20, 21, 25, 32, 33, 37, 64, 65, 78, 82, rng.randrange(maxlen)])
@@ -220,6 +432,7 @@ def rand_bytes(rng, maxlen=200):
 def generate(ctx):
     gen_b58(ctx)
     gen_xmr(ctx)
+    gen_intbytes(ctx)
 
 
 def gen_b58(ctx):
